@@ -670,11 +670,12 @@ INSTANCE_KINDS = ("shared", "isolated", "path")
 
 
 def part_a_items(tier):
-    items = [("type", ts["sql"]) for ts in M1.TYPES]
-    items += [("frac", fam, bl) for fam in FRAC_FAMILIES for bl, _ in FRAC_BASES if tier != "quick" or bl in QUICK_BASES]
+    # the heavy groups first (million-row results), so that they do not form the tail of the pool's work
+    items = [("rows",)]
     items += [("sweep", fam, bl, cl) for fam in FRAC_FAMILIES for bl, _ in SWEEP_BASES for cl in ("exact", "inexact")]
     items += [("kind", k) for k in KIND_STREAMS]
-    items += [("rows",)]
+    items += [("type", ts["sql"]) for ts in M1.TYPES]
+    items += [("frac", fam, bl) for fam in FRAC_FAMILIES for bl, _ in FRAC_BASES if tier != "quick" or bl in QUICK_BASES]
     items += [("login", lab) for lab, _, _ in LOGINS]
     items += [("instance", k) for k in INSTANCE_KINDS]
     return items
